@@ -190,6 +190,16 @@ ClrFilter(sc, c, v) ==
   \/ c.sel = <<"m","g">> /\ v \in {L1} /\ sc = <<>>
   \/ c.sel = <<"gin","singleton">> /\ v = R(<<"m","g">>, <<>>, "bare") /\ sc = <<"s1">>
 ClrBindVals == ClrValsF \cup {R(<<"m","g">>, <<>>, "bare")}
+\* the scenario model for clear_config: one value per store kind, small branching
+ClrMiniFilter(sc, c, v) ==
+  \/ c.sel = <<"m","f">> /\ v \in {L1, S1Call} /\ sc = <<>>
+  \/ c.sel = <<"gin","singleton">> /\ v = R(<<"m","g">>, <<>>, "bare") /\ sc = <<"s1">>
+ClrMiniF == [ Base EXCEPT !.sel = <<"m","f">>, !.pos = <<"p">>, !.npd = 1, !.dflt = {<<"p", D("p")>>} ]
+ClrMiniG == [ Base EXCEPT !.sel = <<"m","g">>, !.api = "external" ]
+ClrMiniConfs == {ClrMiniF, ClrMiniG, GinSingleton}
+ClrMiniRegs == {ClrMiniConfs}
+ClrMiniVals == { L1, S1Call, R(<<"m","g">>, <<>>, "bare") }
+ClrMiniConstNames == { <<"X">> }
 ClrHooks == {
   [id |-> "h1", rets |-> {HookKey(<<>>, <<"f">>, "p", L1)}, raises |-> FALSE],
   [id |-> "h4", rets |-> {}, raises |-> TRUE],
